@@ -2,11 +2,11 @@
 (* Non-maximum suppression over lattice boxes (property C14).                     *)
 (*                                                                                *)
 (* dets : sequence of [box, score]; box is a Lattice box [x, y, w, h, k] (extra    *)
-(*        fields are ignored); score is an integer in hundredths, -1 = no score.   *)
+(*        fields are ignored); score is an integer in hundredths (any sign), NoScore = no score.   *)
 (*        A detection without score is ranked by its box height (h/2 units = 50 h  *)
 (*        hundredths) and always passes the score filter.                          *)
 (* thr  : <<num, den>>, the nms threshold num/den in (0, 1).                        *)
-(* sthr : score threshold in hundredths, -1 = none.                                *)
+(* sthr : score threshold in hundredths, NoScore = none.                           *)
 (*                                                                                *)
 (* The result is DEFINED declaratively (IsResult); Greedy is the operational       *)
 (* definition; TLC checks (MCN) that Greedy yields the unique set satisfying the   *)
@@ -19,9 +19,10 @@
 EXTENDS Integers, Sequences, FiniteSets, TLC
 L == INSTANCE Lattice
 
+NoScore == -100000
 Valid(d) == d.box.w > 0 /\ d.box.h > 0
-Rank(d) == IF d.score = -1 THEN 50 * d.box.h ELSE d.score
-Passes(d, sthr) == Valid(d) /\ (d.score = -1 \/ sthr = -1 \/ d.score > sthr)
+Rank(d) == IF d.score = NoScore THEN 50 * d.box.h ELSE d.score
+Passes(d, sthr) == Valid(d) /\ (d.score = NoScore \/ sthr = NoScore \/ d.score > sthr)
 Filtered(dets, sthr) == {i \in DOMAIN dets : Passes(dets[i], sthr)}
 Ident(dets) == [i \in DOMAIN dets |-> i]
 HigherP(dets, pri, i, j) == Rank(dets[i]) > Rank(dets[j]) \/ (Rank(dets[i]) = Rank(dets[j]) /\ pri[i] < pri[j])
